@@ -643,7 +643,8 @@ inline void pomdpSolvers(verif::Rng & rng, long sub) {
         case 5: {
             AP::PERSEUS solver((size_t)rng.range(1, 6), horizon, t0);
             put("PERSEUS.setTolerance_round_trip_and_rejects_negative", tolRoundTrip(rng, solver, t0, t));
-            const auto [var, vf] = solver(tiger, -100.0);                       // the smallest reward of the tiger problem
+            auto discounted = tiger; discounted.setDiscount(0.75);              // documented precondition of PERSEUS: the discount is not 1 (makeTigerProblem() leaves it at 1)
+            const auto [var, vf] = solver(discounted, -100.0);                  // the smallest reward of the tiger problem
             put("PERSEUS.run_after_setTolerance_in_range",
                 var >= 0.0 && vfWellFormed(vf, S, A, horizon + 1) && (t != 0.0 || vf.size() == horizon + 1) && solver.getTolerance() == t);
             break;
